@@ -183,7 +183,7 @@ func unhex(s string) ([]byte, error) {
 
 var decShapes = []string{
 	"''", "x", "1", "-3", "1.5", "true", "null", "~", "", "{}", "[]", "{a: b}", "{sh: echo hi}", "{sh: }", "{sh: {a: b}}", "{ref: .X}", "{ref: }",
-	"{map: {a: 1}}", "{map: }", "[a, b]", "[1, 2]", "[{a: b}]", "[[a]]", "[null]", "[{}]", "{a: [1, 2]}", "{a: {b: {c: d}}}", "&anc x", "*undefined",
+	"{map: {a: 1}}", "{map: }", "[a, b]", "[1, 2]", "[{a: b}]", "[[a]]", "[null]", "[a, ~, b]", "[[~]]", "{map: {names: [a, null]}}", "{a: [~]}", "[{}]", "{a: [1, 2]}", "{a: {b: {c: d}}}", "&anc x", "*undefined",
 	"{<<: {a: b}, c: d}", "{<<: [a]}", "!!binary aGk=", "!!str 5", "!!int x", "\"a\\nb\"", "\"{{.X}}\"", "\"{{\"", "\"{{.X | nosuchfunc}}\"", "\"{{template \\\"x\\\"}}\"",
 	"{? [a, b] : c}", ".inf", ".nan", "2024-01-01", "0x10", "0o7", "|\n      multi\n      line", ">-\n      folded", "{task: x}", "{cmd: echo, task: x}",
 	"{for: {var: X}, cmd: echo}", "{for: [a, b], task: '{{.ITEM}}'}", "{for: {matrix: {}}, cmd: x}", "{for: {matrix: {A: 1}}, cmd: x}", "{for: {matrix: {A: {ref: .N}}}, cmd: x}",
@@ -333,7 +333,7 @@ func runDecode(c *Ctx) {
 	emit(decodeCase{Kind: "corpus", Doc: hx("version: '3'\nvars:\n  A: 2024-01-01\ntasks: {t: {cmds: ['echo {{.A}}']}}\n"), Note: "timestamp variable"})
 	// (a) shapes × positions
 	total := len(decShapes) * len(decPositions)
-	n := c.Pick(900, total)
+	n := total // the whole product in both tiers (a few seconds): a sampled quick tier kept missing the one pair that mattered
 	for k := 0; k < n; k++ {
 		var pi, si int
 		if n == total {
